@@ -167,4 +167,14 @@ def RoundOkHN (P : Params) : Nat → St → Bool
   | 0, _ => true
   | n+1, s => (outstanding s == 0 || RoundOkH P s) && RoundOkHN P n (healed P s)
 
+/-- the per-round premises that remain with the reassembly entry cap off: receiver established, `Room` -/
+def RoundOkE (s : St) : Bool := s.rcv.state == 3#32 && Room s.rcv
+
+def RoundOkEN (P : Params) : Nat → St → Bool
+  | 0, _ => true
+  | n+1, s => (outstanding s == 0 || RoundOkE s) && RoundOkEN P n (healed P s)
+
+/-- every chunk of the history decodes to non-empty user data (every written fragment carries at least one byte) -/
+def WireDataB (P : Params) (w : List Sender.Chunk) : Bool := w.all fun c => !(toWire P c).userData.isEmpty
+
 end NetSys
